@@ -55,6 +55,19 @@ def recurrences(tier, mode, P, D, data, intervals):
                     yield (a, iv, n, fmt), (r, p, d), None
 
 
+class _S:
+    """str() that never raises (years outside 0000-9999 cannot be dumped)."""
+    def __init__(self, x):
+        self.x = x
+
+    def __str__(self):
+        try:
+            return str(self.x)
+        except Exception:
+            return repr(getattr(self.x, "__dict__", None) or [
+                (k, getattr(self.x, k, None)) for k in getattr(type(self.x), "__slots__", [])])
+
+
 def take(r, k):
     return list(itertools.islice(iter(r), k))
 
@@ -84,16 +97,16 @@ def check_c12(tier, seed, repo):
                             not (x > y) for x, y in zip(pts, pts[1:])):
                         bad = "not strictly decreasing (unbounded duration/end)"
                     elif fmt in (3, 1) and pts and pts[0] != p:
-                        bad = "first point %s is not the start" % pts[0]
+                        bad = "first point %s is not the start" % _S(pts[0])
                     elif fmt == 4 and reps is not None and pts and pts[-1] != p:
-                        bad = "last point %s is not the given end %s" % (pts[-1], p)
+                        bad = "last point %s is not the given end %s" % (_S(pts[-1]), _S(p))
                     elif fmt == 4 and reps is None and pts and pts[0] != p:
                         bad = "first point is not the given end"
                     else:
                         step = d if (fmt != 4 or reps is not None) else d * -1
                         for x, y in zip(pts, pts[1:]):
                             if reps != 1 and (x + step) != y:
-                                bad = "%s is not %s + interval" % (y, x)
+                                bad = "%s is not %s + interval" % (_S(y), _S(x))
                                 break
                 if bad and len(fails) < 40:
                     fails.append({"id": "%s|%s" % (mode, key), "input": {
@@ -130,10 +143,10 @@ def check_c13(tier, seed, repo):
                         bad = "r[%d] != %d-th iterated point" % (i, i)
                     if not r.get_is_valid(x) or not r.get_is_valid(x.to_time_zone(tz)) or \
                             not r.get_is_valid(x.to_ordinal_date()):
-                        bad = "member %s not valid" % x
+                        bad = "member %s not valid" % _S(x)
                     off = x + data.Duration(seconds=1)
                     if off not in take(r, (reps or 5) + 8) and r.get_is_valid(off):
-                        bad = "non-member %s reported valid" % off
+                        bad = "non-member %s reported valid" % _S(off)
                 fwd = r.start_point is not None
                 for i, x in enumerate(pts):
                     nxt = r.get_next(x) if fwd else r.get_prev(x)
@@ -141,7 +154,7 @@ def check_c13(tier, seed, repo):
                         None if reps is not None else "any")
                     if want != "any" and nxt != want and not (
                             reps is not None and i + 1 == len(pts) and nxt is None):
-                        bad = "neighbour of member %d is %s, not %s" % (i, nxt, want)
+                        bad = "neighbour of member %d is %s, not %s" % (i, _S(nxt), _S(want))
                 if r.start_point is not None and d.is_exact():
                     probes = [pts[0] - data.Duration(days=400)] + pts + \
                         [x + data.Duration(seconds=1) for x in pts]
@@ -153,7 +166,7 @@ def check_c13(tier, seed, repo):
                         if reps is None and not later:
                             continue
                         if got != want:
-                            bad = "get_first_after(%s) = %s, not %s" % (q, got, want)
+                            bad = "get_first_after(%s) = %s, not %s" % (_S(q), _S(got), _S(want))
                 if bad and len(fails) < 40:
                     fails.append({"id": "%s|%s" % (mode, key), "input": {
                         "mode": mode, "anchor": a, "interval": iv, "repetitions": reps,
